@@ -75,24 +75,38 @@ BP(b,n,d) == [b |-> b, e |-> <<n,d>>]
 
 Named(id) == [k |-> "named", id |-> id]
 
-RECURSIVE DimOf(_), MagOf(_), DimOfBps(_), MagOfBps(_)
+(* CommonMagnitude (magnitude.hh:688-727): ordered merge keeping, per base, the smaller exponent, where a   *)
+(* base absent from one side counts as exponent 0 (so only negative exponents of one-sided bases survive)  *)
+RECURSIVE CommonMag(_,_)
+NegOnly(p) == SelectSeq(p, LAMBDA x : x.e[1] < 0)
+CommonMag(p, q) ==
+  IF p = <<>> THEN NegOnly(q) ELSE IF q = <<>> THEN NegOnly(p) ELSE
+  LET h1 == Head(p)  h2 == Head(q) IN
+  IF h1.b < h2.b THEN (IF h1.e[1] < 0 THEN <<h1>> ELSE <<>>) \o CommonMag(Tail(p), q)
+  ELSE IF h2.b < h1.b THEN (IF h2.e[1] < 0 THEN <<h2>> ELSE <<>>) \o CommonMag(Tail(q), p)
+  ELSE (IF RLess(h1.e, h2.e) THEN <<h1>> ELSE <<h2>>) \o CommonMag(Tail(p), Tail(q))
+
+RECURSIVE DimOf(_), MagOf(_), DimOfBps(_), MagOfBps(_), CommonMagOfList(_)
 DimOf(u) == CASE u.k = "named"  -> Cat[u.id].dim
               [] u.k = "pref"   -> DimOf(u.u)
               [] u.k = "scaled" -> DimOf(u.u)
               [] u.k = "pow"    -> PackPow(DimOf(u.u), u.e)
               [] u.k = "prod"   -> DimOfBps(u.bps)
+              [] u.k = "common" -> DimOf(u.us[1])
 DimOfBps(bps) == IF bps = <<>> THEN <<>> ELSE DimProd(PackPow(DimOf(Head(bps).b), Head(bps).e), DimOfBps(Tail(bps)))
 MagOf(u) == CASE u.k = "named"  -> Cat[u.id].mag
               [] u.k = "pref"   -> MagProd(MagOf(u.u), Pre[u.p])
               [] u.k = "scaled" -> MagProd(MagOf(u.u), u.m)
               [] u.k = "pow"    -> PackPow(MagOf(u.u), u.e)
               [] u.k = "prod"   -> MagOfBps(u.bps)
+              [] u.k = "common" -> CommonMagOfList(u.us)
+CommonMagOfList(us) == IF Len(us) = 1 THEN MagOf(us[1]) ELSE CommonMag(MagOf(us[1]), CommonMagOfList(Tail(us)))
 MagOfBps(bps) == IF bps = <<>> THEN <<>> ELSE MagProd(PackPow(MagOf(Head(bps).b), Head(bps).e), MagOfBps(Tail(bps)))
 RECURSIVE OriginOf(_)
 OriginOf(u) == IF u.k = "named" THEN Cat[u.id].origin ELSE IF u.k \in {"scaled", "pref"} THEN OriginOf(u.u) ELSE <<0,1>>
 
 Avoid(u) == CASE u.k \in {"named", "pref"} -> 0 [] u.k = "prod" -> 1 [] u.k = "scaled" -> 3
-              [] u.k = "pow" -> IF u.e[2] = 1 THEN 4 ELSE 5
+              [] u.k = "pow" -> (IF u.e[2] = 1 THEN 4 ELSE 5) [] u.k = "common" -> 6
 
 (* The gauntlet.  Returns "lt", "gt", or "broken" (distinct types compare equal) / "eq" *)
 ULess(a,b) == UCmp(a,b) = "lt"
